@@ -6,6 +6,7 @@ import (
 	"go/token"
 	"go/types"
 	"math/big"
+	"regexp"
 	"sort"
 	"strings"
 
@@ -320,9 +321,51 @@ func (e *Engine) mergeVals(prefix string, conds []Term, vs []Val, st *State, rea
 // ---------------------------------------------------------------- loops
 
 // loopWrites collects what the loop body may write: cells, heap component prefixes.
-func (e *Engine) loopWrites(fr *Frame, blocks map[*ssa.BasicBlock]bool) (cells map[*ssa.Alloc]bool, comps []string, all bool) {
+func (e *Engine) loopWrites(fr *Frame, st *State, blocks map[*ssa.BasicBlock]bool) (cells map[*ssa.Alloc]bool, comps []string, all bool, freshOnly map[string]bool) {
 	cells = map[*ssa.Alloc]bool{}
 	compSet := map[string]bool{}
+	general := map[string]bool{}
+	var stars []starEff
+	defer func() {
+		// "*param" effects: the target is a fresh object when the argument is a variable that the loop does
+		// not assign and that currently holds one of this activation's allocation sites
+		for _, sr := range stars {
+			compSet[sr.comp] = true
+			fresh := false
+			if u, ok := sr.arg.(*ssa.UnOp); ok {
+				if a, ok := u.X.(*ssa.Alloc); ok && !a.Heap && !cells[a] {
+					if c, live := st.cells[a]; live && len(c) == 1 && siteTermRe.MatchString(c[0].S) {
+						fresh = true
+					}
+				} else if ok && !a.Heap && blocks[a.Block()] {
+					// a variable declared inside the loop that only ever holds objects allocated inside the loop
+					onlyNew := true
+					for _, ref := range *a.Referrers() {
+						if sto, ok := ref.(*ssa.Store); ok && sto.Addr == a {
+							if na, ok := sto.Val.(*ssa.Alloc); !ok || !blocks[na.Block()] {
+								onlyNew = false
+							}
+						}
+					}
+					fresh = onlyNew
+				}
+			}
+			if !fresh {
+				general[sr.comp] = true
+			}
+		}
+		comps = comps[:0]
+		for c := range compSet {
+			comps = append(comps, c)
+		}
+		sort.Strings(comps)
+		freshOnly = map[string]bool{}
+		for c := range compSet {
+			if !general[c] {
+				freshOnly[c] = true
+			}
+		}
+	}()
 	var rootAlloc func(v ssa.Value) (*ssa.Alloc, bool)
 	rootAlloc = func(v ssa.Value) (*ssa.Alloc, bool) {
 		switch x := v.(type) {
@@ -337,7 +380,13 @@ func (e *Engine) loopWrites(fr *Frame, blocks map[*ssa.BasicBlock]bool) (cells m
 		}
 		return nil, false
 	}
-	addType := func(kind string, t types.Type) { compSet[kind+"."+typeID(t)+"."] = true }
+	addTypeG := func(kind string, t types.Type, gen bool) {
+		compSet[kind+"."+typeID(t)+"."] = true
+		if gen {
+			general[kind+"."+typeID(t)+"."] = true
+		}
+	}
+	addType := func(kind string, t types.Type) { addTypeG(kind, t, true) }
 	for b := range blocks {
 		for _, in := range b.Instrs {
 			switch x := in.(type) {
@@ -347,7 +396,8 @@ func (e *Engine) loopWrites(fr *Frame, blocks map[*ssa.BasicBlock]bool) (cells m
 				} else if ok && !a.Heap {
 					cells[a] = true
 				} else if ok && a.Heap {
-					addType("H", a.Type().(*types.Pointer).Elem())
+					// a variable allocated inside the loop is a fresh object in every iteration
+					addTypeG("H", a.Type().(*types.Pointer).Elem(), !blocks[a.Block()])
 				} else {
 					// store through arbitrary pointer: component determined by pointee root type
 					switch y := x.Addr.(type) {
@@ -383,6 +433,7 @@ func (e *Engine) loopWrites(fr *Frame, blocks map[*ssa.BasicBlock]bool) (cells m
 						}
 					case *ssa.Global:
 						compSet["G."+y.Pkg.Pkg.Name()+"."+y.Name()+"."] = true
+						general["G."+y.Pkg.Pkg.Name()+"."+y.Name()+"."] = true
 					default:
 						if pt, ok := x.Addr.Type().Underlying().(*types.Pointer); ok {
 							addType("H", pt.Elem())
@@ -391,11 +442,20 @@ func (e *Engine) loopWrites(fr *Frame, blocks map[*ssa.BasicBlock]bool) (cells m
 						}
 					}
 				}
+			case *ssa.Next:
+				if rg, ok := x.Iter.(*ssa.Range); ok {
+					compSet["V.visited."+rg.Name()] = true
+					general["V.visited."+rg.Name()] = true
+				}
 			case *ssa.MapUpdate:
 				compSet["M."+typeID(x.Map.Type().Underlying())+"."] = true
+				general["M."+typeID(x.Map.Type().Underlying())+"."] = true
 			case *ssa.Alloc:
 				if !x.Heap && arrayElemOfPtr(x.Type()) == nil {
 					cells[x] = true
+				} else if x.Heap && arrayElemOfPtr(x.Type()) == nil {
+					// zero-initialisation of the per-iteration object
+					addTypeG("H", x.Type().(*types.Pointer).Elem(), false)
 				}
 			case ssa.CallInstruction:
 				if _, isGo := in.(*ssa.Go); isGo {
@@ -405,8 +465,12 @@ func (e *Engine) loopWrites(fr *Frame, blocks map[*ssa.BasicBlock]bool) (cells m
 				if eff.all {
 					all = true
 				}
+				for _, sr := range eff.stars {
+					stars = append(stars, sr)
+				}
 				for _, c := range eff.comps {
 					compSet[c] = true
+					general[c] = true
 				}
 				if bi, ok := x.Common().Value.(*ssa.Builtin); ok {
 					switch bi.Name() {
@@ -420,6 +484,7 @@ func (e *Engine) loopWrites(fr *Frame, blocks map[*ssa.BasicBlock]bool) (cells m
 						}
 					case "delete":
 						compSet["M."+typeID(x.Common().Args[0].Type().Underlying())+"."] = true
+						general["M."+typeID(x.Common().Args[0].Type().Underlying())+"."] = true
 					}
 				}
 			}
@@ -450,6 +515,8 @@ func (e *Engine) cutLoopEntry(fr *Frame, h *ssa.BasicBlock, ord int, lc *LoopCon
 		name = fr.fn.Name() + "." + name
 	}
 	pre := st.clone()
+	e.curLoopState = st
+	e.setIdx(fr, h)
 	// 1. invariants hold on entry
 	if lc != nil {
 		for i, inv := range lc.Invariants {
@@ -493,7 +560,8 @@ func (e *Engine) cutLoopEntry(fr *Frame, h *ssa.BasicBlock, ord int, lc *LoopCon
 	}
 	// 2. havoc what the loop writes
 	blocks := loopBlocks(fr.fn, h, back)
-	cells, comps, all := e.loopWrites(fr, blocks)
+	cells, comps, all, freshOnly := e.loopWrites(fr, st, blocks)
+	before := st.clone()
 	for a := range cells {
 		if _, live := st.cells[a]; !live {
 			continue
@@ -506,6 +574,30 @@ func (e *Engine) cutLoopEntry(fr *Frame, h *ssa.BasicBlock, ord int, lc *LoopCon
 		st.havocPrefix([]string{""}, false)
 	} else if len(comps) > 0 {
 		st.havocPrefix(comps, false)
+		// components written only through per-iteration fresh objects: pre-existing objects keep their contents
+		for name, old := range before.heap {
+			for fo := range freshOnly {
+				if strings.HasPrefix(name, fo) && strings.HasPrefix(name, "H.") {
+					nw := st.comp(name, old.Sort)
+					if nw.S != old.S {
+						e.assumes = append(e.assumes, T(SBool, "(forall ((fr Int)) (! (=> (<= fr alloc0) (= (select %s fr) (select %s fr))) :pattern ((select %s fr))))", nw, old, nw))
+					}
+				}
+			}
+		}
+		oldBase := st.base
+		st.base = func(name string, sort Sort) Term {
+			nw := oldBase(name, sort)
+			for fo := range freshOnly {
+				if strings.HasPrefix(name, fo) && strings.HasPrefix(name, "H.") {
+					old := before.comp(name, sort)
+					if nw.S != old.S {
+						e.assumes = append(e.assumes, T(SBool, "(forall ((fr Int)) (! (=> (<= fr alloc0) (= (select %s fr) (select %s fr))) :pattern ((select %s fr))))", nw, old, nw))
+					}
+				}
+			}
+			return nw
+		}
 	}
 	for phi := range phis {
 		hv := e.havocVal(reach, "lh."+phi.Name(), phi.Type())
@@ -514,6 +606,13 @@ func (e *Engine) cutLoopEntry(fr *Frame, h *ssa.BasicBlock, ord int, lc *LoopCon
 	for _, a := range autos {
 		e.assume(reach, Bin(SBool, ">=", fr.vals[a.phi].scalar(), a.lo))
 	}
+	if ra := rangeIndexAlloc(h); ra != nil {
+		if c, ok := st.cells[ra]; ok {
+			e.assume(reach, And(Bin(SBool, ">=", c[0], IntLit(-1)), Bin(SBool, "<=", c[0], T(SInt, "4611686018427387904"))))
+		}
+	}
+	e.curLoopState = st
+	e.setIdx(fr, h)
 	// 3. assume invariants
 	if lc != nil {
 		for _, inv := range lc.Invariants {
@@ -545,6 +644,40 @@ func (e *Engine) cutLoopEntry(fr *Frame, h *ssa.BasicBlock, ord int, lc *LoopCon
 		e.autoInvs[name+fmt.Sprint(fr.id)] = append(e.autoInvs[name+fmt.Sprint(fr.id)], autoChk{a.phi, a.lo})
 	}
 	return reach
+}
+
+// setIdx binds "$idx" to the hidden index of a range loop (the integer phi of the header).
+func rangeIndexAlloc(h *ssa.BasicBlock) *ssa.Alloc {
+	for _, in := range h.Instrs {
+		if st, ok := in.(*ssa.Store); ok {
+			if a, ok := st.Addr.(*ssa.Alloc); ok && a.Comment == "rangeindex" {
+				return a
+			}
+		}
+	}
+	return nil
+}
+
+func (e *Engine) setIdx(fr *Frame, h *ssa.BasicBlock) {
+	delete(e.ghost, "$idx")
+	if a := rangeIndexAlloc(h); a != nil && e.curLoopState != nil {
+		if c, ok := e.curLoopState.cells[a]; ok && len(c) == 1 {
+			e.ghost["$idx"] = c[0]
+			return
+		}
+	}
+	for _, in := range h.Instrs {
+		phi, ok := in.(*ssa.Phi)
+		if !ok {
+			break
+		}
+		if b, ok := phi.Type().Underlying().(*types.Basic); ok && b.Info()&types.IsInteger != 0 {
+			if v, ok := fr.vals[phi]; ok && len(v.L) == 1 {
+				e.ghost["$idx"] = v.L[0]
+				return
+			}
+		}
+	}
 }
 
 type autoChk struct {
@@ -595,6 +728,13 @@ func (e *Engine) cutLoopBack(fr *Frame, h *ssa.BasicBlock, ord int, lc *LoopCont
 	for phi, nv := range newPhi {
 		fr.vals[phi] = nv
 	}
+	if ra := rangeIndexAlloc(h); ra != nil {
+		if c, ok := st.cells[ra]; ok {
+			e.oblige("inv.keep", fmt.Sprintf("inv.keep.auto@%s", name), "range index stays within [-1, 2^62]", reach, And(Bin(SBool, ">=", c[0], IntLit(-1)), Bin(SBool, "<=", c[0], T(SInt, "4611686018427387904"))), nil)
+		}
+	}
+	e.curLoopState = st
+	e.setIdx(fr, h)
 	if lc != nil {
 		for i, inv := range lc.Invariants {
 			env := e.loopEnv(fr, st, pre)
@@ -699,9 +839,8 @@ func (e *Engine) execInstr(fr *Frame, st *State, reach Term, in ssa.Instruction)
 		if at, isArr := t.Underlying().(*types.Array); isArr {
 			// arrays live in the slice-element heap so that slicing them shares storage
 			et := at.Elem()
-			site, r := e.newSite(types.NewSlice(et))
-			e.reified[site] = true
-			for _, lf := range Layout(et) {
+			_, r := e.newSite(types.NewSlice(et))
+				for _, lf := range Layout(et) {
 				name := "E." + typeID(et) + "." + lf.Path
 				arr := st.comp(name, ArraySort(SInt, ArraySort(SInt, lf.Sort)))
 				st.setComp(name, e.define("h", Store(arr, r, T(ArraySort(SInt, lf.Sort), "((as const (Array Int %s)) %s)", lf.Sort, zeroTerm(lf)))))
@@ -782,8 +921,7 @@ func (e *Engine) execInstr(fr *Frame, st *State, reach Term, in ssa.Instruction)
 	case *ssa.MapUpdate:
 		e.mapUpdate(fr, st, reach, x)
 	case *ssa.MakeMap:
-		site, r := e.newSite(x.Type().Underlying())
-		e.reified[site] = true
+		_, r := e.newSite(x.Type().Underlying())
 		mt := x.Type().Underlying().(*types.Map)
 		ks := Layout(mt.Key())[0].Sort
 		id := "M." + typeID(mt) + "."
@@ -798,8 +936,7 @@ func (e *Engine) execInstr(fr *Frame, st *State, reach Term, in ssa.Instruction)
 		e.safety("makelen", "make", reach, And(Bin(SBool, "<=", IntLit(0), ln), Bin(SBool, "<=", ln, cp)))
 		e.allocCheck(reach, ln, "make")
 		et := x.Type().Underlying().(*types.Slice).Elem()
-		site, r := e.newSite(types.NewSlice(et))
-		e.reified[site] = true
+		_, r := e.newSite(types.NewSlice(et))
 		// zero-filled
 		for _, lf := range Layout(et) {
 			name := "E." + typeID(et) + "." + lf.Path
@@ -846,6 +983,10 @@ func (e *Engine) execInstr(fr *Frame, st *State, reach Term, in ssa.Instruction)
 		v := e.valueOf(fr, st, x.X)
 		fr.vals[x] = Val{T: x.Type(), L: e.flat(st, reach, v)}
 		e.rangeOf[x] = v
+		if mt, ok := v.T.Underlying().(*types.Map); ok {
+			_, ks := mapComps(mt)
+			st.setComp("V.visited."+x.Name(), T(ArraySort(ks, SBool), "((as const (Array %s Bool)) false)", ks))
+		}
 	case *ssa.Next:
 		fr.vals[x] = e.next(fr, st, reach, x)
 	case *ssa.Call:
@@ -895,6 +1036,8 @@ func (e *Engine) execInstr(fr *Frame, st *State, reach Term, in ssa.Instruction)
 	}
 	return reach
 }
+
+var siteTermRe = regexp.MustCompile(`^\(\+ alloc0 \d+\)$`)
 
 func arrayElemOfPtr(t types.Type) types.Type {
 	if pt, ok := t.Underlying().(*types.Pointer); ok {
@@ -1196,8 +1339,7 @@ func (e *Engine) makeInterface(st *State, reach Term, v Val, it types.Type) Val 
 		ref = e.flat(st, reach, v)[0]
 	} else {
 		// box the value
-		site, r := e.newSite(v.T)
-		e.reified[site] = true
+		_, r := e.newSite(v.T)
 		e.store(st, &Addr{Kind: aHeap, Ref: r, Root: v.T, T: v.T}, e.storable(st, reach, v, v.T))
 		ref = r
 	}
@@ -1264,9 +1406,8 @@ func (e *Engine) convert(fr *Frame, st *State, reach Term, x *ssa.Convert) Val {
 	case fok && fb.Info()&types.IsString != 0:
 		if sl, ok := to.(*types.Slice); ok {
 			// []byte(s): fresh array with len = strlen, contents = chars
-			site, r := e.newSite(types.NewSlice(sl.Elem()))
-			e.reified[site] = true
-			ln := T(SInt, "(strlen %s)", v.scalar())
+			_, r := e.newSite(types.NewSlice(sl.Elem()))
+				ln := T(SInt, "(strlen %s)", v.scalar())
 			name := "E." + typeID(sl.Elem()) + "."
 			arr := st.comp(name, ArraySort(SInt, ArraySort(SInt, SInt)))
 			cont := e.fresh("strbytes", ArraySort(SInt, SInt))
@@ -1403,8 +1544,18 @@ func (e *Engine) next(fr *Frame, st *State, reach Term, x *ssa.Next) Val {
 		id, ks := mapComps(mt)
 		ref := coll.L[0]
 		kv := e.havocVal(reach, "next.k", mt.Key())
-		has := Select(Select(st.comp(id+"has", ArraySort(SInt, ArraySort(ks, SBool))), ref, ArraySort(ks, SBool)), kv.L[0], SBool)
+		hasArr := Select(st.comp(id+"has", ArraySort(SInt, ArraySort(ks, SBool))), ref, ArraySort(ks, SBool))
+		has := Select(hasArr, kv.L[0], SBool)
 		e.assume(reach, Implies(ok, And(Not(Eq(ref, IntLit(0))), has)))
+		// ghost: the set of keys already visited by this iteration
+		vname := "V.visited." + rng.Name()
+		vis := st.comp(vname, ArraySort(ks, SBool))
+		e.assume(reach, Implies(ok, Not(Select(vis, kv.L[0], SBool))))
+		qk := "(nk " + string(ks) + ")"
+		e.assume(reach, Implies(Not(ok), T(SBool, "(forall (%s) (! (=> (and (not (= %s 0)) (select %s nk)) (select %s nk)) :pattern ((select %s nk))))", qk, ref, hasArr, vis, hasArr)))
+		st.setComp(vname, e.define("vis", Ite(ok, Store(vis, kv.L[0], True), vis)))
+		e.ghost["$visited"] = Term{}
+		e.curVisited = vname
 		var vals []Term
 		for _, lf := range Layout(mt.Elem()) {
 			arr := st.comp(id+"v."+lf.Path, ArraySort(SInt, ArraySort(ks, lf.Sort)))
